@@ -78,6 +78,11 @@ TWINS = [
      [("        backprop_grad = tau_hat_grad @ self.W2_.T\n        backprop_grad *= self.H_ > 0\n", "        backprop_grad = (tau_hat_grad @ self.W2_.T) * (self.H_ > 0)\n")]),
     ("mlp-bias-grad-ones", "gemclus/mlp/_mlp_geminis.py",
      [("        b2_grad = tau_hat_grad.sum(0, keepdims=True)", "        b2_grad = np.sum(tau_hat_grad, axis=0, keepdims=True)")]),
+    ("gmm-guards-rewritten", "gemclus/data/synthetic_data.py",
+     [("    if np.any(pvals <= 0):", "    if not np.all(pvals > 0):"), ("    if K != scale.shape[0]:", "    if len(scale) != K:"),
+      ("            if np.any(np.linalg.eigvals(scale[k]) < 0):", "            if (np.linalg.eigvals(scale[k]) < 0).any():")]),
+    ("student-t-rewritten", "gemclus/data/synthetic_data.py",
+     [("    X = np.sqrt(df / u) * nx + loc.reshape((1, -1))", "    X = loc.reshape((1, -1)) + nx / np.sqrt(u / df)")]),
     ("get-gemini-local", "gemclus/mlp/_mlp_geminis.py",
      [("        return MMDGEMINI(ovo=self.ovo, kernel=self.kernel, kernel_params=self.kernel_params)", "        return MMDGEMINI(kernel=self.kernel, ovo=self.ovo, kernel_params=self.kernel_params)")]),
 ]
